@@ -59,6 +59,9 @@ type Attr struct {
 
 	FullKey string `json:"full_key,omitempty"` // Root.Field.Sub ("" when the README does not fix it)
 	TypeKey string `json:"type_key"`           // Message.Field
+	// EmbedKey: <EmbeddingMessage>.<Field> for a field that is flattened into the embedding message (the
+	// promoted field is a field of that message too: Message.Field form; for a root message also the full path)
+	EmbedKey string `json:"embed_key,omitempty"`
 	// DiagSuffix is what a diagnostic about this field must at least contain.
 	DiagSuffix string `json:"diag_suffix"`
 	DiagFull   string `json:"diag_full,omitempty"`
@@ -216,7 +219,11 @@ func (b *builder) msg(d *ir.Message, path string, keyBase string, depth int) (*M
 	return out, nil
 }
 
-func (b *builder) fields(out *Msg, d *ir.Message, keyBase string, chain []string, embedNullable []bool, depth int) error {
+func (b *builder) fields(out *Msg, d *ir.Message, keyBase string, chain []string, embedNullable []bool, depth int, embedBase ...string) error {
+	eb := ""
+	if len(embedBase) > 0 {
+		eb = embedBase[0]
+	}
 	for _, on := range d.OneofNames() {
 		out.Oneofs = append(out.Oneofs, on)
 	}
@@ -226,8 +233,12 @@ func (b *builder) fields(out *Msg, d *ir.Message, keyBase string, chain []string
 			full = keyBase + "." + fl.Name
 		}
 		typeKey := d.Name + "." + fl.Name
+		alt := ""
+		if eb != "" {
+			alt = eb + "." + fl.Name
+		}
 		ch := append(append([]string{}, chain...), fl.Name)
-		if has(b.c.ExcludeFields, full, typeKey) {
+		if has(b.c.ExcludeFields, full, typeKey, alt) {
 			out.Excluded = append(out.Excluded, Excluded{Chain: ch, FullKey: full, TypeKey: typeKey})
 			continue
 		}
@@ -241,15 +252,15 @@ func (b *builder) fields(out *Msg, d *ir.Message, keyBase string, chain []string
 			// path at the embedding message), so only the Message.Field form is modelled.
 			childBase := ""
 			en := append(append([]bool{}, embedNullable...), fl.IsNullable())
-			if err := b.fields(out, sub, childBase, ch, en, depth+1); err != nil {
+			if err := b.fields(out, sub, childBase, ch, en, depth+1, d.Name); err != nil {
 				return err
 			}
 			continue
 		}
 		a := &Attr{Chain: ch, EmbedNullable: embedNullable, Owner: d.Name, Card: fl.Card, Kind: fl.Kind, Oneof: fl.Oneof,
-			FullKey: full, TypeKey: typeKey, Cast: fl.CastType}
+			FullKey: full, TypeKey: typeKey, EmbedKey: alt, Cast: fl.CastType}
 		// name
-		if v, ok := lookup(b.c.NameOverrides, full, typeKey); ok {
+		if v, ok := lookup(b.c.NameOverrides, full, alt, typeKey); ok {
 			a.Name = v
 		} else if fl.JSONTag != nil && strings.Split(*fl.JSONTag, ",")[0] != "" && strings.Split(*fl.JSONTag, ",")[0] != "-" {
 			a.Name = strings.Split(*fl.JSONTag, ",")[0]
@@ -302,13 +313,13 @@ func (b *builder) fields(out *Msg, d *ir.Message, keyBase string, chain []string
 			a.Msg = nil
 		}
 		// flags
-		a.Required = has(b.c.RequiredFields, full, typeKey)
-		a.Computed = has(b.c.ComputedFields, full, typeKey)
-		a.Sensitive = has(b.c.SensitiveFields, full, typeKey)
-		if v, ok := lookup(b.c.Validators, full, typeKey); ok {
+		a.Required = has(b.c.RequiredFields, full, typeKey, alt)
+		a.Computed = has(b.c.ComputedFields, full, typeKey, alt)
+		a.Sensitive = has(b.c.SensitiveFields, full, typeKey, alt)
+		if v, ok := lookup(b.c.Validators, full, alt, typeKey); ok {
 			a.Validators = v
 		}
-		if v, ok := lookup(b.c.PlanModifiers, full, typeKey); ok {
+		if v, ok := lookup(b.c.PlanModifiers, full, alt, typeKey); ok {
 			a.PlanModifiers = v
 		} else if b.c.UseStateForUnknown && a.Computed {
 			a.PlanModifiers = []string{"github.com/hashicorp/terraform-plugin-framework/tfsdk.UseStateForUnknown()"}
@@ -325,6 +336,7 @@ func (b *builder) fields(out *Msg, d *ir.Message, keyBase string, chain []string
 type Occurrence struct {
 	FullKey          string
 	TypeKey          string
+	EmbedKey         string // <EmbeddingMessage>.<Field> for flattened children of an embedded message
 	Message          string // owner message
 	Field            *ir.Field
 	Depth            int
@@ -336,8 +348,11 @@ type Occurrence struct {
 // Occurrences walks the selected roots (ignoring exclusions) and lists every field occurrence.
 func Occurrences(f *ir.File, types []string) []Occurrence {
 	var out []Occurrence
+	embedBase := ""
 	var walk func(d *ir.Message, keyBase string, depth int, flattened bool, rootLevel bool)
 	walk = func(d *ir.Message, keyBase string, depth int, flattened bool, rootLevel bool) {
+		eb := embedBase
+		embedBase = ""
 		if depth > 12 {
 			return
 		}
@@ -347,6 +362,9 @@ func Occurrences(f *ir.File, types []string) []Occurrence {
 				full = keyBase + "." + fl.Name
 			}
 			o := Occurrence{FullKey: full, TypeKey: d.Name + "." + fl.Name, Message: d.Name, Field: fl, Depth: depth, Embed: fl.Embed}
+			if eb != "" {
+				o.EmbedKey = eb + "." + fl.Name
+			}
 			if fl.Embed {
 				// the embedding field itself is only addressed as Message.Field
 				o.FullKey = ""
@@ -359,6 +377,7 @@ func Occurrences(f *ir.File, types []string) []Occurrence {
 					continue
 				}
 				childBase := ""
+				embedBase = d.Name
 				walk(sub, childBase, depth+1, true, rootLevel)
 				continue
 			}
